@@ -26,6 +26,7 @@ SWEEPS: List[dict] = [
     _sweep("VSrc", {"value": "float(t)"}, {"t": {"values": [1.0, 2.0, 3.0, 4.0, 5.0, 6.0, 7.0, 8.0, 9.0]}}),
     _sweep("VSrc", {"value": "t * 2.0"}, {"t": {"from_context": "r"}}),
     _sweep("VSrc2", {"value": "t"}, {"t": {"values": [1.0, 2.0]}, "u": {"values": [5.0]}}, mode="by_position", broadcast=True),
+    _sweep("VSrc2", {"value": "t + u", "offset": "v"}, {"u": {"from_context": "r"}, "t": {"from_context": "q"}, "v": {"from_context": "r"}}, mode="by_position", broadcast=True),
 ]
 OP_SWEEP = _sweep("VTwo", {"factor": "t ** 2 // 1 + (u if t < u else -u)"}, {"t": {"values": [1.0, 2.0]}, "u": {"lo": 0.5, "hi": 1.5, "steps": 2}})
 OP_SWEEP["parameters"] = {"addend": 0.25}
